@@ -5,9 +5,10 @@ from fractions import Fraction
 from harness.core import Rng, gz, gnat, gq, gbool, glist, gopt, Dec
 
 PID = "C20"
-VO = ["theories/Misc/Validate.vo", "theories/Misc/Validate_proofs.vo", "theories/Base/Flat.vo"]
+VO = ["theories/Misc/Validate.vo", "theories/Misc/Validate_proofs.vo", "theories/Base/Flat.vo",
+      "theories/Misc/ValidateSrc.vo", "theories/Misc/ValidateSrc_proofs.vo"]
 PROPS_FILES = ["props/C20.v"]
-TRANSLATORS = ["t_tables"]
+TRANSLATORS = ["t_tables", "t_validate"]
 REQUIRES = ["From FL Require Import Num Flat Validate."]
 SHARD = 40
 CHUNK = 1
@@ -22,15 +23,22 @@ LEVEL_TEXT = ("Proof (Coq): for an executable model of the validation of every e
               "combination outside the constraint / objective tables regenerated from the source, control features "
               "for ThresholdOptimizer, conflicting / out-of-range bounds, costs and weights, duplicate or non-string "
               "feature names, predict before fit -- is rejected for EVERY abstract input. Tie to the code: translator "
-              "t_tables (tables + the check chain at the top of ThresholdOptimizer.fit, fail closed) and a "
+              "t_tables (tables + the check chain at the top of ThresholdOptimizer.fit, fail closed), translator "
+              "t_validate (every guard of _validate_and_reformat_input and its callers, UtilityParity / ErrorRate / "
+              "GridSearch constructors, the degenerate-label guard, MetricFrame.__init__ / _process_features / "
+              "GroupFeature, CorrelationRemover, check_is_fitted in every predict / transform, regenerated as "
+              "(condition, operands, flags, position) and proved to MEAN the model's decision functions: "
+              "C20_src_*) and a "
               "differential run entry point x argument x container x defect x position: the implementation must "
               "raise iff the model rejects (NotFittedError where stated) and must not raise on the valid twin.")
-LEVEL_NOTE = ("Trusted: Coq kernel + vm_compute; translator t_tables; the abstraction of concrete containers to "
+LEVEL_NOTE = ("Trusted: Coq kernel + vm_compute; translators t_tables and t_validate; the abstraction of concrete containers to "
               "lengths / label codes / names done by harness/props/c20.py; sklearn check_array / "
               "check_consistent_length and pandas column assignment are modelled by their length test only. "
               "The order of checks is modelled and compared through the exception message of single-defect inputs.")
-TECHNIQUE = "Coq proof over an executable validation model + differential model/implementation run + table translator"
-TRUSTED = ["Coq 8.16.1 kernel and vm_compute", "translators/t_tables.py", "harness/props/c20.py (generators, "
+TECHNIQUE = ("Coq proof over an executable validation model + differential model/implementation run + table and "
+             "guard translators")
+TRUSTED = ["Coq 8.16.1 kernel and vm_compute", "translators/t_tables.py", "translators/t_validate.py (decoding of "
+           "the guards into the tags of ValidateSrc.v)", "harness/props/c20.py (generators, "
            "abstraction of containers to lengths/labels/names, comparison)", "sklearn check_array / "
            "check_consistent_length / check_is_fitted and pandas length checks (modelled by their outcome)",
            "no axioms (Print Assumptions: closed)"]
